@@ -21,7 +21,11 @@ static void need_keys(const V &a) {
     if (cur.sk) { delete_LweKey(cur.xkey); delete_gate_bootstrapping_secret_keyset(cur.sk); cur.sk = 0; }
     uint32_t seed = (uint32_t) a[9]; tfhe_random_generator_setSeed(&seed, 1);
     if (a[0] > 0) cur.params = new_default_gate_bootstrapping_parameters((int) a[0]);
-    else {
+    else if (a[0] == -1) {     // the in/out LWE parameters ARE the parameters of the extracted samples (one object, n = k*N): no separate LweParams
+        TLweParams *tp = new_TLweParams(1024, (int) a[2], ldexp((double) a[7], -40), 0.012467);
+        TGswParams *gp = new_TGswParams((int) a[3], (int) a[4], tp);
+        cur.params = new TFheGateBootstrappingParameterSet((int) a[5], (int) a[6], &tp->extracted_lweparams, gp);
+    } else {
         LweParams *lp = new_LweParams((int) a[1], ldexp((double) a[8], -40), 0.012467);
         TLweParams *tp = new_TLweParams(1024, (int) a[2], ldexp((double) a[7], -40), 0.012467);
         TGswParams *gp = new_TGswParams((int) a[3], (int) a[4], tp);
